@@ -1,6 +1,6 @@
 """C11 - expressions that must be side-effect free are rejected if they can write state."""
 from ..report import Check
-from ..rules import effects
+from ..rules import effects, descend
 
 
 def run(F, G, tier, seed):
@@ -21,6 +21,8 @@ def run(F, G, tier, seed):
     effects.run_prepass(chk, F, CG, fields=("changes", "depends"))
     effects.run_ownlocals(chk, F, CG, fields=("changes", "depends"))
     effects.run_block_locals(chk, F, CG)
+    descend.run(chk, F, ["changes_any_variable", "changes_variable", "collect_possible_writes"], [])
+    descend.run_link(chk, F, G, ["changes_any_variable", "changes_variable"], "collect_possible_writes")
     chk.analysed["write_kinds"] = sorted(kinds)
     return chk.finish(
         "Decides the structural clauses of C11: every listed context is gated (dominance over the checker's "
